@@ -15,7 +15,22 @@
 //!                     once it has returned) and prints `poll=Pending` otherwise — the very test
 //!                     `StatusFuture::poll` makes.
 //!   `q status`        `closed=<0|1> completed=<0|1> error=<0|1>` (kind status; `na` otherwise)
+//!
+//! kind `statustake`: `<src>.complete_status()` then a *cutter* that can finish the
+//! downstream before the source terminates, then the probe.
+//!   field `src (hot)`      hot `Subject` (subscribed at case start, driven by `emit`)
+//!         `src (create)`   `observable::create`, whose closure hands the `Subscriber` it is
+//!                          given to the harness: `emit` calls it directly (a producer with no
+//!                          `is_finished` filter in front of the status observer)
+//!         `src (iter k)`   `observable::from_iter(1..=k)`, subscribed (and run) by event `sub`
+//!   field `cutter (take n)` | `(first)` | `(takewhile <pred>)` | `(takewhilei <pred>)` | `(id)`
+//!   events `emit 0 <notif>` / `sub` -> `o=<what the probe received>`; `poll`, `q status` as for
+//!   kind status.  `emit` on an `iter` source and `sub` on the others do nothing (`o=`).
+//! kind `statuswait` takes the same `src` / `cutter` fields plus `pre <notif>..` (delivered
+//! before the waiter parks, e.g. the items that let `take` finish); with `src (iter k)` the
+//! `term` event subscribes (the terminal is the iterator's own completion).
 use std::cell::RefCell;
+use std::convert::Infallible;
 use std::future::Future;
 use std::pin::Pin;
 use std::rc::Rc;
@@ -29,7 +44,7 @@ use rxrust::ops::complete_status::CompleteStatus;
 use rxrust::ops::future::ObservableError;
 use rxrust::prelude::*;
 
-use crate::val::{Notif, Val};
+use crate::val::{pred, Notif, Val};
 use crate::{Case, Out};
 
 struct CountWaker(AtomicUsize);
@@ -62,6 +77,39 @@ impl Observer<Val, i64> for ProbeT {
   }
   fn error(self, e: i64) {
     self.0.lock().unwrap().push(Notif::Error(e));
+  }
+  fn complete(self) {
+    self.0.lock().unwrap().push(Notif::Complete);
+  }
+  fn is_finished(&self) -> bool {
+    false
+  }
+}
+
+/// probes below an infallible source (`from_iter`)
+struct ProbeI(Rc<RefCell<Vec<Notif>>>);
+impl Observer<Val, Infallible> for ProbeI {
+  fn next(&mut self, v: Val) {
+    self.0.borrow_mut().push(Notif::Next(v));
+  }
+  fn error(self, e: Infallible) {
+    match e {}
+  }
+  fn complete(self) {
+    self.0.borrow_mut().push(Notif::Complete);
+  }
+  fn is_finished(&self) -> bool {
+    false
+  }
+}
+
+struct ProbeTI(Arc<Mutex<Vec<Notif>>>);
+impl Observer<Val, Infallible> for ProbeTI {
+  fn next(&mut self, v: Val) {
+    self.0.lock().unwrap().push(Notif::Next(v));
+  }
+  fn error(self, e: Infallible) {
+    match e {}
   }
   fn complete(self) {
     self.0.lock().unwrap().push(Notif::Complete);
@@ -186,13 +234,307 @@ fn run_status_wait(case: &Case, out: &mut Out) {
   }
 }
 
+// ---------------------------------------------------------------- statustake
+
+/// What sits between `complete_status()` and the probe.
+#[derive(Clone)]
+enum Cutter {
+  Id,
+  Take(usize),
+  First,
+  TakeWhile(String, bool),
+}
+
+fn parse_cutter(case: &Case) -> Cutter {
+  if !case.has("cutter") {
+    return Cutter::Id;
+  }
+  let e = &case.field("cutter")[0];
+  match e.head() {
+    "id" => Cutter::Id,
+    "take" => Cutter::Take(e.list()[1].nat()),
+    "first" => Cutter::First,
+    "takewhile" => Cutter::TakeWhile(e.list()[1].atom().to_string(), false),
+    "takewhilei" => Cutter::TakeWhile(e.list()[1].atom().to_string(), true),
+    c => panic!("unknown cutter {}", c),
+  }
+}
+
+#[derive(Clone, Copy)]
+enum SrcKind {
+  Hot,
+  Create,
+  Iter(i64),
+}
+
+fn parse_src(case: &Case) -> SrcKind {
+  if !case.has("src") {
+    return SrcKind::Hot;
+  }
+  let e = &case.field("src")[0];
+  match e.head() {
+    "hot" => SrcKind::Hot,
+    "create" => SrcKind::Create,
+    "iter" => SrcKind::Iter(e.list()[1].int()),
+    c => panic!("unknown src {}", c),
+  }
+}
+
+/// Something the harness can call like an observer again and again (a `Subject` or
+/// the `Subscriber` handed out by `observable::create`): terminals go through a clone.
+trait Drive {
+  fn drive(&mut self, n: Notif);
+}
+impl<S: Observer<Val, i64> + Clone> Drive for S {
+  fn drive(&mut self, n: Notif) {
+    match n {
+      Notif::Next(v) => self.next(v),
+      Notif::Error(e) => self.clone().error(e),
+      Notif::Complete => self.clone().complete(),
+    }
+  }
+}
+
+type Stash = Rc<RefCell<Option<Box<dyn Drive>>>>;
+
+/// `observable::create` whose closure only hands its subscriber to the harness.
+fn create_local<O: Observer<Val, i64> + 'static>(
+  st: Stash,
+) -> observable::ObservableFn<impl FnOnce(Subscriber<O>), Subscriber<O>> {
+  observable::create(move |s: Subscriber<O>| {
+    *st.borrow_mut() = Some(Box::new(s) as Box<dyn Drive>);
+  })
+}
+
+fn create_threads<O: Observer<Val, i64> + Send + 'static>(
+  st: Stash,
+) -> observable::ObservableFn<impl FnOnce(SubscriberThreads<O>), SubscriberThreads<O>> {
+  observable::create(move |s: SubscriberThreads<O>| {
+    *st.borrow_mut() = Some(Box::new(s) as Box<dyn Drive>);
+  })
+}
+
+/// `$src.complete_status()`, the cutter, the probe: returns the status handle and the
+/// (not yet executed) subscription.  `$src` is expanded once per cutter so that a
+/// source generic in its observer type (`create`) is instantiated for each of them.
+macro_rules! status_cut {
+  ($src:expr, $cut:expr, $probe:expr) => {{
+    let thunk: (Arc<CompleteStatus>, Box<dyn FnOnce()>) = match $cut {
+      Cutter::Id => {
+        let (op, st) = $src.complete_status();
+        let p = $probe;
+        (st, Box::new(move || {
+          let _ = op.actual_subscribe(p);
+        }))
+      }
+      Cutter::Take(n) => {
+        let (op, st) = $src.complete_status();
+        let p = $probe;
+        (st, Box::new(move || {
+          let _ = op.take(n).actual_subscribe(p);
+        }))
+      }
+      Cutter::First => {
+        let (op, st) = $src.complete_status();
+        let p = $probe;
+        (st, Box::new(move || {
+          let _ = op.first().actual_subscribe(p);
+        }))
+      }
+      Cutter::TakeWhile(name, false) => {
+        let (op, st) = $src.complete_status();
+        let p = $probe;
+        let f = pred(&name);
+        (st, Box::new(move || {
+          let _ = op.take_while(f).actual_subscribe(p);
+        }))
+      }
+      Cutter::TakeWhile(name, true) => {
+        let (op, st) = $src.complete_status();
+        let p = $probe;
+        let f = pred(&name);
+        (st, Box::new(move || {
+          let _ = op.take_while_inclusive(f).actual_subscribe(p);
+        }))
+      }
+    };
+    thunk
+  }};
+}
+
+/// The system of kinds `statustake` / `statuswait`.
+struct CutSys {
+  status: Arc<CompleteStatus>,
+  /// the subscription, until it has been made (`iter`: made by `sub`)
+  pending: Option<Box<dyn FnOnce()>>,
+  /// what `emit` calls (none for `iter`)
+  driver: Option<Box<dyn Drive>>,
+  llog: Rc<RefCell<Vec<Notif>>>,
+  tlog: Arc<Mutex<Vec<Notif>>>,
+  threads: bool,
+}
+
+impl CutSys {
+  fn new(src: SrcKind, cut: Cutter, threads: bool) -> CutSys {
+    let llog = Rc::new(RefCell::new(Vec::<Notif>::new()));
+    let tlog = Arc::new(Mutex::new(Vec::<Notif>::new()));
+    let stash: Stash = Rc::new(RefCell::new(None));
+    let mut driver: Option<Box<dyn Drive>> = None;
+    let (status, sub) = match (src, threads) {
+      (SrcKind::Hot, false) => {
+        let s: Subject<'static, Val, i64> = Subject::default();
+        driver = Some(Box::new(s.clone()));
+        status_cut!(s.clone(), cut, Probe(llog.clone()))
+      }
+      (SrcKind::Hot, true) => {
+        let s: SubjectThreads<Val, i64> = SubjectThreads::default();
+        driver = Some(Box::new(s.clone()));
+        status_cut!(s.clone(), cut, ProbeT(tlog.clone()))
+      }
+      (SrcKind::Create, false) => status_cut!(create_local(stash.clone()), cut, Probe(llog.clone())),
+      (SrcKind::Create, true) => status_cut!(create_threads(stash.clone()), cut, ProbeT(tlog.clone())),
+      (SrcKind::Iter(k), false) => {
+        status_cut!(observable::from_iter((1..=k).map(Val::Int)), cut, ProbeI(llog.clone()))
+      }
+      (SrcKind::Iter(k), true) => {
+        status_cut!(observable::from_iter((1..=k).map(Val::Int)), cut, ProbeTI(tlog.clone()))
+      }
+    };
+    let mut sys = CutSys { status, pending: Some(sub), driver, llog, tlog, threads };
+    match src {
+      SrcKind::Hot => sys.subscribe(),
+      SrcKind::Create => {
+        sys.subscribe();
+        sys.driver = stash.borrow_mut().take();
+      }
+      SrcKind::Iter(_) => {}
+    }
+    sys
+  }
+
+  fn subscribe(&mut self) {
+    if let Some(f) = self.pending.take() {
+      f()
+    }
+  }
+
+  fn emit(&mut self, n: Notif) {
+    if let Some(d) = self.driver.as_mut() {
+      d.drive(n)
+    }
+  }
+
+  fn take_log(&self) -> Vec<Notif> {
+    if self.threads {
+      std::mem::take(&mut *self.tlog.lock().unwrap())
+    } else {
+      std::mem::take(&mut *self.llog.borrow_mut())
+    }
+  }
+}
+
+fn run_status_take(case: &Case, out: &mut Out) {
+  let mut sys = CutSys::new(parse_src(case), parse_cutter(case), case.flavor == "threads");
+  for (k, ev) in case.events.iter().enumerate() {
+    out.cur = k;
+    match ev[0].atom() {
+      "emit" => {
+        sys.emit(Notif::parse(&ev[2]));
+        out.emit(k, fmt_log(sys.take_log()));
+      }
+      "sub" => {
+        sys.subscribe();
+        out.emit(k, fmt_log(sys.take_log()));
+      }
+      "poll" => {
+        let line = if sys.status.is_closed() {
+          CompleteStatus::wait_for_end(sys.status.clone());
+          "poll=Ready".to_string()
+        } else {
+          "poll=Pending".to_string()
+        };
+        out.emit(k, line);
+      }
+      "q" => out.emit(
+        k,
+        format!(
+          "closed={} completed={} error={}",
+          sys.status.is_closed() as u8,
+          sys.status.is_completed() as u8,
+          sys.status.error_occur() as u8
+        ),
+      ),
+      e => panic!("unknown event {}", e),
+    }
+  }
+}
+
+/// kind `statuswait` with a cutter (and any of the three sources): the notifications of field
+/// `pre` are delivered first (they can let the cutter finish the downstream), THEN the waiter
+/// parks in `wait_for_end`, then the source's terminal arrives: it must wake the waiter.
+fn run_status_wait_cut(case: &Case, out: &mut Out) {
+  use rxrust::ops::complete_status::verif::AFTER_CHECK;
+  use std::sync::mpsc;
+  use std::time::Duration;
+  let src = parse_src(case);
+  let cut = parse_cutter(case);
+  let pre: Vec<Notif> = if case.has("pre") {
+    case.field("pre").iter().map(Notif::parse).collect()
+  } else {
+    vec![]
+  };
+  for (k, ev) in case.events.iter().enumerate() {
+    out.cur = k;
+    let term = Notif::parse(&ev[1]);
+    let mut sys = CutSys::new(src, cut.clone(), case.flavor == "threads");
+    for n in pre.iter() {
+      sys.emit(n.clone());
+    }
+    let status = sys.status.clone();
+    let (tx, rx) = mpsc::channel::<()>();
+    let (ctx, crx) = mpsc::channel::<()>();
+    std::thread::spawn(move || {
+      AFTER_CHECK.with(|c| {
+        *c.borrow_mut() = Some(Box::new(move || {
+          let _ = ctx.send(());
+        }))
+      });
+      CompleteStatus::wait_for_end(status);
+      let _ = tx.send(());
+    });
+    let _ = crx.recv_timeout(Duration::from_millis(1000));
+    std::thread::sleep(Duration::from_millis(40));
+    match src {
+      SrcKind::Iter(_) => sys.subscribe(),
+      _ => match term {
+        Notif::Next(v) => {
+          sys.emit(Notif::Next(v));
+          sys.emit(Notif::Complete)
+        }
+        t => sys.emit(t),
+      },
+    }
+    // shorter than the harness watchdog (1.5 s per case): a lost wake-up is reported by this line
+    match rx.recv_timeout(Duration::from_millis(800)) {
+      Ok(()) => out.emit(k, "wait=returned".to_string()),
+      Err(_) => out.emit(k, "wait=HANG".to_string()),
+    }
+  }
+}
+
 pub fn run(case: &Case, out: &mut Out) {
   let kind = case.field("kind")[0].atom().to_string();
   if kind == "statusrace" {
     return run_status_race(case, out);
   }
   if kind == "statuswait" {
+    if case.has("cutter") || case.has("src") {
+      return run_status_wait_cut(case, out);
+    }
     return run_status_wait(case, out);
+  }
+  if kind == "statustake" {
+    return run_status_take(case, out);
   }
   let threads = case.flavor == "threads";
   let wk = Arc::new(CountWaker(AtomicUsize::new(0)));
